@@ -400,6 +400,8 @@ def impl_roundtrip(casbin, kind, level, mname, pol, tmp):
     text = None
     path = None
     m2 = None
+    # what the file held before the save must not matter: half of the cases save into a file with (longer) old content
+    prior = "p, stale, stale, stale\n" * 40 if sum(len(rs) for _, rs in pol) % 2 == 0 else ""
     try:
         if level == "adapter":
             m = pc.new_model(casbin, mname)
@@ -413,7 +415,7 @@ def impl_roundtrip(casbin, kind, level, mname, pol, tmp):
                 a.load_policy(m2)
             else:
                 path = tmp.path()
-                pc.write_bytes(path, "")
+                pc.write_bytes(path, prior)
                 if kind == "file":
                     a = FileAdapter(path)
                     a.save_policy(m)
@@ -444,6 +446,8 @@ def impl_roundtrip(casbin, kind, level, mname, pol, tmp):
             e.model.clear_policy()
             for key, rules in pol:
                 e.model.model[key[0]][key].policy = [list(r) for r in rules]
+            if path:
+                pc.write_bytes(path, prior)
             if kind == "async":
                 arun(e.save_policy())
                 text = pc.read_text(path)
